@@ -1,6 +1,7 @@
 package main
 
 import (
+	"fmt"
 	"go/types"
 	"strings"
 	"sync"
@@ -171,6 +172,7 @@ func (e *Enc) frameCheckMap(st *State, ins ssa.Instruction, m Term) {
 
 func (e *Enc) frameAtReturn(st *State, ins *ssa.Return) {
 	e.checkGlobalInvsAtExit(st, ins)
+	e.checkModifies(st, ins)
 	e.lockAtReturn(st, ins)
 }
 
@@ -225,3 +227,222 @@ func (e *Enc) havocPanic(st *State) {}
 
 // ---------------------------------------------------------------------------
 // Select hook (C02 polls), lock discipline (C13): see ghost.go
+
+// checkModifies: the function's own modifies clause is an obligation at every return: every pre-existing
+// location that is not named by the clause has its entry value.
+type frameGoal struct {
+	name string
+	goal Term
+	desc string
+}
+
+func (e *Enc) checkModifies(st *State, ins *ssa.Return) {
+	for _, g := range e.frameGoals(st, nil) {
+		e.oblige("frame", "modifies."+g.name, e.c.Props, st.reach, g.goal, g.desc, ins.Pos())
+	}
+}
+
+// frameGoals: for every component that differs from its entry value, the formula "only locations named in
+// the modifies clause differ". only: restrict to these components (nil = all).
+func (e *Enc) frameGoals(st *State, only map[string]bool) []frameGoal {
+	var out []frameGoal
+	if e.c == nil || e.c.ModifiesAll || e.c.Trusted {
+		return nil
+	}
+	pre := e.pre
+	sc := e.specCtx(pre, pre)
+	type target struct {
+		obj Term
+		idx *Term
+	}
+	targets := map[string][]target{}
+	whole := map[string]bool{}
+	for _, p := range e.c.Modifies {
+		x, err := parseSpecExpr(p)
+		if err != nil {
+			e.unsupported = "modifies " + p + ": " + err.Error()
+			return nil
+		}
+		if c, ok := x.(SCall); ok {
+			switch c.Fun {
+			case "elems":
+				v, t, err := sc.eval(c.Args[0])
+				if err != nil {
+					e.unsupported = "modifies " + p + ": " + err.Error()
+					return nil
+				}
+				sl := t.Underlying().(*types.Slice)
+				if isStructVal(sl.Elem()) {
+					ms := newModSet()
+					e.structHeaps(sl.Elem(), ms)
+					for k := range ms.heaps {
+						whole[k] = true
+					}
+				} else {
+					e.declSlice()
+					targets["E:"+sortOf(sl.Elem())] = append(targets["E:"+sortOf(sl.Elem())], target{obj: app(SInt, "sl_base", v.T)})
+				}
+			case "heap":
+				if s, ok := c.Args[0].(SStrLit); ok {
+					if strings.Contains(s.Val, ":") {
+						whole[s.Val] = true
+					} else {
+						whole["H:"+s.Val] = true
+					}
+				}
+			case "mapof":
+				v, t, err := sc.eval(c.Args[0])
+				if err != nil {
+					e.unsupported = "modifies " + p + ": " + err.Error()
+					return nil
+				}
+				mt := t.Underlying().(*types.Map)
+				targets[mapVHeap(mt)] = append(targets[mapVHeap(mt)], target{obj: v.T})
+				targets[mapPHeap(mt)] = append(targets[mapPHeap(mt)], target{obj: v.T})
+			}
+			continue
+		}
+		a, t, err := sc.lvalAddr(x)
+		if err != nil {
+			e.unsupported = "modifies " + p + ": " + err.Error()
+			return nil
+		}
+		if a.A == nil {
+			if t != nil && isStructVal(t) {
+				e.structTargets(a.T, t, func(heap string, obj Term) { targets[heap] = append(targets[heap], target{obj: obj}) })
+			}
+			continue
+		}
+		switch a.A.kind {
+		case aHeap:
+			targets[a.A.heap] = append(targets[a.A.heap], target{obj: a.A.obj})
+		case aElem:
+			i := a.A.idx
+			targets[a.A.heap] = append(targets[a.A.heap], target{obj: a.A.obj, idx: &i})
+		case aGlob:
+			whole[a.A.heap] = true
+		}
+	}
+	for _, name := range sortedKeys(st.heaps) {
+		cur := st.heaps[name]
+		if only != nil && !only[name] {
+			continue
+		}
+		if whole[name] || strings.HasPrefix(name, "X:defer_") || name == "X:protected" {
+			continue
+		}
+		srt := e.compSort[name]
+		old := e.comp(pre, name, srt)
+		if cur.S == old.S {
+			continue
+		}
+		if !strings.HasPrefix(srt, "(Array") {
+			// scalar component (global / ghost): must be unchanged
+			out = append(out, frameGoal{name, Eq(cur, old), "component " + name + " is not in the modifies clause"})
+			continue
+		}
+		e.n++
+		o := Term{fmt.Sprintf("fo_%d", e.n), arrKeySort(srt)}
+		var excl []Term
+		for _, tg := range targets[name] {
+			if tg.idx == nil {
+				excl = append(excl, Eq(o, tg.obj))
+			}
+		}
+		body := Eq(Select(cur, o), Select(old, o))
+		// element-level targets of nested heaps
+		var elemT []target
+		for _, tg := range targets[name] {
+			if tg.idx != nil {
+				elemT = append(elemT, tg)
+			}
+		}
+		if len(elemT) > 0 {
+			e.n++
+			j := Term{fmt.Sprintf("fj_%d", e.n), SInt}
+			var ex2 []Term
+			for _, tg := range elemT {
+				ex2 = append(ex2, And(Eq(o, tg.obj), Eq(j, *tg.idx)))
+			}
+			body = Term{fmt.Sprintf("(forall ((%s Int)) (=> (not %s) (= (select (select %s %s) %s) (select (select %s %s) %s))))", j.S, Or(ex2...).S, cur.S, o.S, j.S, old.S, o.S, j.S), SBool}
+		}
+		guard := And(Lt(I(0), o), Lt(o, pre.hwm), Not(Or(excl...)))
+		if o.Sort != SInt {
+			guard = Not(Or(excl...))
+		}
+		goal := Term{fmt.Sprintf("(forall ((%s %s)) (=> %s %s))", o.S, o.Sort, guard.S, body.S), SBool}
+		out = append(out, frameGoal{name, goal, "only locations named in the modifies clause change in " + name})
+	}
+	return out
+}
+
+// useLemmas assumes the axiom / lemma instances named by the contract's "use" clauses, evaluated in st.
+func (e *Enc) useLemmas(st *State) {
+	if e.c == nil {
+		return
+	}
+	for _, u := range e.c.Uses {
+		var ax *Clause
+		for i := range e.P.Spec.Axioms {
+			if e.P.Spec.Axioms[i].Label == u.Fun {
+				ax = &e.P.Spec.Axioms[i]
+			}
+		}
+		for i := range e.P.Spec.Lemmas {
+			if e.P.Spec.Lemmas[i].Label == u.Fun {
+				ax = &e.P.Spec.Lemmas[i]
+			}
+		}
+		if ax == nil {
+			e.unsupported = "use: unknown axiom or lemma " + u.Fun
+			return
+		}
+		q, ok := ax.Expr.(SQuant)
+		if !ok || !q.Forall || len(q.Vars) != len(u.Args) {
+			e.unsupported = "use " + u.Fun + ": arity mismatch"
+			return
+		}
+		sc := e.specCtx(st, e.pre)
+		n := *sc
+		n.vars = map[string]Val{}
+		n.vtypes = map[string]types.Type{}
+		for k, v := range sc.vars {
+			n.vars[k] = v
+			n.vtypes[k] = sc.vtypes[k]
+		}
+		bad := false
+		for i, a := range u.Args {
+			v, _, err := sc.eval(a)
+			if err != nil {
+				// the instance may mention locals not yet defined here; skip silently
+				bad = true
+				break
+			}
+			n.vars[q.Vars[i].Name] = Val{T: e.def("inst", e.asTerm(st, v))}
+			n.vtypes[q.Vars[i].Name] = nil
+		}
+		if bad {
+			continue
+		}
+		n.locals = false
+		t, err := n.evalBool(q.Body)
+		if err != nil {
+			e.unsupported = "use " + u.Fun + ": " + err.Error()
+			return
+		}
+		e.assume(st.reach, t)
+	}
+}
+
+
+func (e *Enc) structTargets(obj Term, t types.Type, f func(heap string, obj Term)) {
+	s := t.Underlying().(*types.Struct)
+	for i := 0; i < s.NumFields(); i++ {
+		fa := e.fieldAddr(obj, t, i)
+		if fa.A != nil {
+			f(fa.A.heap, fa.A.obj)
+		} else if isStructVal(s.Field(i).Type()) {
+			e.structTargets(fa.T, s.Field(i).Type(), f)
+		}
+	}
+}
